@@ -196,3 +196,44 @@ fn index_branch_node() {
     kani::cover!(!got.1 && got.0 == 0);
     std::mem::forget(pn);
 }
+
+// ---- keys of DIFFERENT lengths, including the EMPTY key and a key that is a strict prefix of its successor
+//      (jammdb accepts the empty key; binary search must find it like any other)
+// @ob props=C01,C08,C07 tier=quick cap=300 fns=PageNode::index,Page::leaf_elements,LeafElement::key bound="leaf page with 3 keys of 0, 1 and 2 bytes (sorted, symbolic; the 1-byte key may be a prefix of the 2-byte key), probe of 0..=3 bytes" unwind=5
+#[kani::proof]
+#[kani::unwind(5)]
+fn index_leaf_page_varlen_keys() {
+    let k1: [u8; 1] = kani::any();
+    let k2: [u8; 2] = kani::any();
+    kani::assume(&k1[..] < &k2[..]);
+    let mut buf = [0u64; 32];
+    let e: [u8; 0] = [];
+    crate::cursor::jv::put_leaf_page_at(buf.as_mut_ptr() as *mut u8, 0, 0, &[
+        crate::cursor::jv::Ent { t: 0, k: &e, v: &[1] },
+        crate::cursor::jv::Ent { t: 0, k: &k1, v: &[2] },
+        crate::cursor::jv::Ent { t: 0, k: &k2, v: &[3] },
+    ]);
+    let page = unsafe { &*(buf.as_ptr() as *const Page) };
+    let pn = PageNode::Page(page);
+    let (p, l) = any_probe();
+    let probe = &p[..l];
+    let got = pn.index(probe);
+    let keys: [&[u8]; 3] = [&e, &k1, &k2];
+    let mut below = 0usize;
+    let mut hit = false;
+    let mut i = 0;
+    while i < 3 {
+        if keys[i] < probe {
+            below += 1;
+        }
+        if keys[i] == probe {
+            hit = true;
+        }
+        i += 1;
+    }
+    assert!(got.1 == hit, "JV-C01-VARLEN: exact flag iff the key is present (also for the empty key and for prefixes)");
+    assert!(got.0 == if hit { below } else { below.saturating_sub(1) }, "JV-C01-VARLEN: slot of the key, or the slot before the insertion point");
+    kani::cover!(hit && l == 0);
+    kani::cover!(hit && l == 1);
+    kani::cover!(!hit && l == 2 && probe[0] == k1[0] && below == 2, "opt: a probe that extends the 1-byte key");
+}
